@@ -36,6 +36,9 @@ type renderReplay struct {
 	Kind  string  `json:"kind"`
 	Input []int   `json:"input"`
 	Cfgs  [][]int `json:"cfgs"`
+	// the renderer is handed an EMPTY reference map instead of the parsed one (the ReferenceMap field is part of the configuration):
+	// a reference link or image whose label the map does not hold is still one <a> / <img> element, with empty href / src
+	NoRefs bool `json:"norefs,omitempty"`
 }
 
 func renderEvents(src []byte, n commonmark.Node, out *[][]any) {
@@ -99,7 +102,7 @@ func init() {
 	}
 }
 
-func renderOne(input []byte, cfgs [][]int) (t *renderTrace, pm string) {
+func renderOne(input []byte, cfgs [][]int, norefs bool) (t *renderTrace, pm string) {
 	defer func() {
 		if r := recover(); r != nil {
 			pm = fmt.Sprint(r)
@@ -119,6 +122,10 @@ func renderOne(input []byte, cfgs [][]int) (t *renderTrace, pm string) {
 			h = 1
 		}
 		t.Refs = append(t.Refs, []any{ints([]byte(k)), ints([]byte(d.Destination)), ints([]byte(d.Title)), h})
+	}
+	if norefs {
+		refs = nil
+		t.Refs = [][]any{}
 	}
 	for _, b := range blocks {
 		evs := [][]any{}
@@ -180,12 +187,12 @@ func cmdRender(args []string) *Result {
 	}
 	sw := newShardWriter(args[1], envInt("VERIF_SHARDS", 8))
 	defer sw.close()
-	one := func(input []byte, cfgs [][]int) {
-		t, pm := renderOne(input, cfgs)
+	one := func(input []byte, cfgs [][]int, norefs bool) {
+		t, pm := renderOne(input, cfgs, norefs)
 		res.Evaluations += len(cfgs)
-		rp := &renderReplay{Kind: "render", Input: ints(input), Cfgs: cfgs}
+		rp := &renderReplay{Kind: "render", Input: ints(input), Cfgs: cfgs, NoRefs: norefs}
 		if pm != "" {
-			res.addCandidate(Candidate{Sig: map[string]any{"input": ints(input), "class": "panic"}, Record: map[string]any{"kind": "render", "input": ints(input), "cfgs": cfgs}, What: fmt.Sprintf("%q: %s", input, pm)})
+			res.addCandidate(Candidate{Sig: map[string]any{"input": ints(input), "class": "panic"}, Record: map[string]any{"kind": "render", "input": ints(input), "cfgs": cfgs, "norefs": norefs}, What: fmt.Sprintf("%q: %s", input, pm)})
 			return
 		}
 		sw.write(t, rp)
@@ -214,7 +221,7 @@ func cmdRender(args []string) *Result {
 		for sc.Scan() {
 			var r renderReplay
 			mustUnmarshal(sc.Bytes(), &r)
-			one(bytesOf(r.Input), r.Cfgs)
+			one(bytesOf(r.Input), r.Cfgs, r.NoRefs)
 		}
 	case "gen":
 		thorough := os.Getenv("VERIF_TIER") == "thorough"
@@ -239,7 +246,11 @@ func cmdRender(args []string) *Result {
 					cfgs = append(cfgs, allCfgs[(k*7+j*5)%len(allCfgs)])
 				}
 			}
-			one(append([]byte(nil), doc...), cfgs)
+			one(append([]byte(nil), doc...), cfgs, false)
+			if bytes.Contains(doc, []byte("]:")) {
+				// a document that may define references: rendered again with an empty reference map
+				one(append([]byte(nil), doc...), cfgs[:2], true)
+			}
 		}
 		for _, ex := range specExamples() {
 			emit([]byte(ex))
